@@ -406,3 +406,13 @@ def run(ctx):
     _run_before_r03_12(ctx)
     from . import replay_rules
     ctx.guard(replay_rules.r03_12)
+
+
+_run_before_r03_13 = run
+
+
+def run(ctx):
+    _run_before_r03_13(ctx)
+    # Chen over the triples of seeded random histories (replay of the real tree)
+    from . import replay_rules
+    ctx.guard(replay_rules.r03_13)
